@@ -264,7 +264,7 @@ def name_elements(rng, n, kind):
     if kind == "int":
         return list(range(n))
     if kind == "int_sparse":
-        return sorted(rng.sample(range(0, 40), n))
+        return sorted(rng.sample(range(0, max(40, 3 * n)), n))
     if kind == "collision":
         return [8 * i for i in range(n)]
     if kind == "str":
@@ -280,14 +280,19 @@ def name_elements(rng, n, kind):
     raise ValueError(kind)
 
 
-def gen_dataset(rng, nmax=7, mmax=5, family=None, kind=None, allow_empty=True, nmin=1):
-    """Returns (raw, meta). raw: list of rankings of buckets of values; at least one non-empty ranking."""
+def gen_dataset(rng, nmax=7, mmax=5, family=None, kind=None, allow_empty=True, nmin=1, big=0.0, big_nmax=40):
+    """Returns (raw, meta). raw: list of rankings of buckets of values; at least one non-empty ranking.
+    big: share of instances well above nmax / mmax (12..40 elements, 3..12 rankings): code paths that depend on a size."""
     if family is None:
         family = rng.choice(["uniform", "uniform", "near", "sparse", "blocky", "dup", "complete"])
     if kind is None:
         kind = rng.choice(["int", "int", "int_sparse", "collision", "str", "str_digit", "str_mixed", "str_delim"])
     n = rng.randint(nmin, nmax)
     m = rng.randint(1, mmax)
+    is_big = big > 0 and rng.random() < big
+    if is_big:
+        n = rng.randint(12, big_nmax)
+        m = rng.randint(3, 12)
     elems = name_elements(rng, n, kind)
     td = rng.choice([0.0, 0.2, 0.5, 0.8])
     raw = []
@@ -370,6 +375,8 @@ def gen_dataset(rng, nmax=7, mmax=5, family=None, kind=None, allow_empty=True, n
     # permute insertion order inside buckets (matters for hash-colliding members)
     raw = [[rng.sample(b, len(b)) for b in r] for r in raw]
     meta = {"family": family, "kind": kind, "n": n, "m": len(raw)}
+    if is_big:
+        meta["big"] = True
     return raw, meta
 
 
